@@ -211,45 +211,50 @@ Proof.
   exists cs, b0, u. auto.
 Qed.
 
-Lemma check_prog_fn : forall p idx f,
-    check_prog p = true -> nth_error p idx = Some f -> check_fn false (map f_skel p) f = true.
+Lemma check_prog_fn : forall s p idx f,
+    check_prog_s s p = true -> nth_error p idx = Some f -> check_fn s (map f_skel p) f = true.
 Proof.
-  unfold check_prog. intros p idx f H Hn. rewrite forallb_forall in H. apply H. eapply nth_error_In; eauto.
+  unfold check_prog_s. intros s p idx f H Hn. rewrite forallb_forall in H. apply H. eapply nth_error_In; eauto.
 Qed.
 
-Lemma walk_run : forall p, check_prog p = true ->
+Lemma walk_run : forall s p, check_prog_s s p = true ->
     forall n k idx f cs strict evs cur used entry orc,
       nth_error p idx = Some f -> f_skel f = FnCall cs ->
       conf entry (FnCall cs) (walk k (map f_skel p) f (tops_of 0 cs) (cells_list 0 cs) strict evs cur used)
            (run n p f evs (entry + cur) orc).
 Proof.
-  intros p Hp. induction n as [|n IH]; intros k idx f cs strict evs cur used entry orc Hf Hsk.
+  intros s p Hp. induction n as [|n IH]; intros k idx f cs strict evs cur used entry orc Hf Hsk.
   - cbn [run]. apply conf_stop. constructor.
   - destruct k as [|k]; [exact I|]. cbn [walk run].
     apply walk_evs_run_evs.
     + intros evs' cur' used' orc'. eapply IH; eauto.
-    + intros i g Hg. pose proof (check_prog_fn _ _ _ Hp Hg) as Hc. apply check_fn_inv in Hc.
+    + intros i g Hg. pose proof (check_prog_fn _ _ _ _ Hp Hg) as Hc. apply check_fn_inv in Hc.
       destruct Hc as [_ [b0 [_ [_ [Hb _]]]]]. eauto.
-    + intros i g b0 e orc' Hg Hb. pose proof (check_prog_fn _ _ _ Hp Hg) as Hc. apply check_fn_inv in Hc.
+    + intros i g b0 e orc' Hg Hb. pose proof (check_prog_fn _ _ _ _ Hp Hg) as Hc. apply check_fn_inv in Hc.
       destruct Hc as [csg [b0' [u [Hskg [Hb' Hw]]]]]. rewrite Hb in Hb'. inversion Hb'; subst b0'.
-      pose proof (IH (S (length (f_blocks g))) i g csg false b0 0 [] e orc' Hg Hskg) as H.
+      pose proof (IH (S (length (f_blocks g))) i g csg s b0 0 [] e orc' Hg Hskg) as H.
       rewrite Hw in H. rewrite Hskg. replace (e + 0) with e in H by lia. exact H.
 Qed.
 
 (* the soundness theorem *)
-Theorem check_sound : forall p, check_prog p = true ->
+Theorem check_sound_s : forall s p, check_prog_s s p = true ->
     forall idx f, nth_error p idx = Some f ->
     forall fuel entry orc, fn_ok entry (f_skel f) (run_fn fuel p f entry orc).
 Proof.
-  intros p Hp idx f Hf fuel entry orc.
-  pose proof (check_prog_fn _ _ _ Hp Hf) as Hc. apply check_fn_inv in Hc.
+  intros s p Hp idx f Hf fuel entry orc.
+  pose proof (check_prog_fn _ _ _ _ Hp Hf) as Hc. apply check_fn_inv in Hc.
   destruct Hc as [cs [b0 [u [Hsk [Hb Hw]]]]].
-  pose proof (walk_run p Hp fuel (S (length (f_blocks f))) idx f cs false b0 0 [] entry orc Hf Hsk) as H.
+  pose proof (walk_run s p Hp fuel (S (length (f_blocks f))) idx f cs s b0 0 [] entry orc Hf Hsk) as H.
   rewrite Hw in H. replace (entry + 0) with entry in H by lia.
   unfold run_fn. rewrite Hb, Hsk.
   destruct (run fuel p f b0 entry orc) as [|tr|c tr o r]; cbn in *; auto.
   destruct H as [-> [-> Hf']]. cbn. repeat split; auto. now rewrite app_nil_r.
 Qed.
+
+Theorem check_sound : forall p, check_prog p = true ->
+    forall idx f, nth_error p idx = Some f ->
+    forall fuel entry orc, fn_ok entry (f_skel f) (run_fn fuel p f entry orc).
+Proof. intros p Hp. exact (check_sound_s false p Hp). Qed.
 
 Corollary check_sound_bounds : forall p, check_prog p = true ->
     forall idx f, nth_error p idx = Some f ->
